@@ -29,7 +29,7 @@ SHARD_TIMEOUT = {"quick": 1800, "thorough": 7200}
 
 def plan(tier, seed):
     n = 16 if tier == "quick" else 48
-    per = 3 if tier == "quick" else 10
+    per = 3 if tier == "quick" else 30
     return [{"kind": "coarsen", "sub": i, "cases": per, "pool_execs": 2 if tier == "quick" else 4} for i in range(n)]
 
 
